@@ -35,8 +35,9 @@ void DataArray::ioRead(DataType dtype, void *data, const NDSize &count, const ND
         std::vector<double> tmp;
         double *read_buffer;
 
-        if (data_esize < sizeof(double)) {
-            //need temporary buffer
+        if (data_esize < sizeof(double) || !data_type_is_numeric(dtype)) {
+            //need temporary buffer (also for elements that are no numbers, e.g.
+            //strings: the doubles must not be written over the caller's objects)
             tmp.resize(nelms);
             read_buffer = tmp.data();
         } else {
